@@ -1018,6 +1018,9 @@ func main() {
 		}
 		ran++
 	}
+	if replayC == nil {
+		runExtras(res)
+	}
 	res.Count("tables", st.tables)
 	res.Count("raw_lines", st.raw)
 	res.Count("raw_blacklisted", st.rawBlacklisted)
